@@ -95,6 +95,20 @@ func c01AddrStores(addr ssa.Value, depth int) []*ssa.Store {
 					out = append(out, c01AddrStores(fn.FreeVars[k], depth+1)...)
 				}
 			}
+		case ssa.CallInstruction:
+			// the address is handed to a repository function (fill(&x), go func(res *T){ *res = .. }(&slots[i])): the
+			// stores that function makes through its parameter
+			cc := y.Common()
+			for _, t := range c01Targets(cc) {
+				if len(cc.Args) != len(t.Params) {
+					continue
+				}
+				for k, a := range cc.Args {
+					if a == addr {
+						out = append(out, c01AddrStores(t.Params[k], depth+1)...)
+					}
+				}
+			}
 		}
 	}
 	return out
@@ -212,8 +226,7 @@ func c01ContainerName(v ssa.Value) string {
 }
 
 func c01IsAPICall(call *ssa.Call) bool {
-	n := calleeName(&call.Call)
-	return strings.Contains(n, apiPkg+".") || strings.Contains(n, apiPkg+")")
+	return c01CalleeHas(&call.Call, func(n string) bool { return strings.Contains(n, apiPkg+".") || strings.Contains(n, apiPkg+")") })
 }
 
 // c01IsAPIQuery: a call into the Consul client that can fail, i.e. that talks to the agent (not an accessor like
@@ -355,32 +368,7 @@ func (w *c01Flow) walk(v ssa.Value) {
 			}
 		}
 		// a builder / buffer filled through library calls (b.WriteString(s), fmt.Fprintf(&b, ...)): what is handed to them
-		alias := map[ssa.Value]bool{x: true}
-		users := append([]ssa.Instruction{}, *x.Referrers()...)
-		for _, r := range *x.Referrers() {
-			if mi, ok := r.(*ssa.MakeInterface); ok && mi.Referrers() != nil { // fmt.Fprintf(&b, ...)
-				alias[mi] = true
-				users = append(users, *mi.Referrers()...)
-			}
-		}
-		for _, r := range users {
-			cc := callCommon(r)
-			if cc == nil || len(c01Targets(cc)) > 0 {
-				continue
-			}
-			uses := false
-			for _, a := range cc.Args {
-				uses = uses || alias[a]
-			}
-			if !uses {
-				continue
-			}
-			for _, a := range cc.Args {
-				if !alias[a] {
-					w.walk(a)
-				}
-			}
-		}
+		w.filled(x, 0)
 	case *ssa.MakeMap, *ssa.MakeSlice:
 		w.container(v)
 	case *ssa.BinOp:
@@ -399,6 +387,9 @@ func (w *c01Flow) walk(v ssa.Value) {
 	case *ssa.SliceToArrayPointer:
 		w.walk(x.X)
 	case *ssa.Slice:
+		if k, ok := x.High.(*ssa.Const); ok && k.Value != nil && k.Int64() == 0 {
+			return // s[:0]: the storage of s and none of its content
+		}
 		w.walk(x.X)
 	case *ssa.Field:
 		w.walk(x.X)
@@ -432,6 +423,57 @@ func (w *c01Flow) walk(v ssa.Value) {
 		w.walk(x.Tuple)
 	case *ssa.Call:
 		w.call(x, -1)
+	}
+}
+
+// filled: the object at ptr is filled through library calls that are given the pointer (b.WriteString(s),
+// fmt.Fprintf(&b, ...)): what is handed to them - also inside repository helpers that are given the pointer.
+func (w *c01Flow) filled(ptr ssa.Value, depth int) {
+	refs := ptr.Referrers()
+	if refs == nil || depth > 3 {
+		return
+	}
+	alias := map[ssa.Value]bool{ptr: true}
+	users := append([]ssa.Instruction{}, *refs...)
+	for _, r := range *refs {
+		if mi, ok := r.(*ssa.MakeInterface); ok && mi.Referrers() != nil { // fmt.Fprintf(&b, ...)
+			alias[mi] = true
+			users = append(users, *mi.Referrers()...)
+		}
+	}
+	for _, r := range users {
+		cc := callCommon(r)
+		if cc == nil {
+			continue
+		}
+		if ts := c01Targets(cc); len(ts) > 0 {
+			for _, t := range ts {
+				if len(cc.Args) != len(t.Params) {
+					continue
+				}
+				for k, a := range cc.Args {
+					if alias[a] {
+						if _, isPtr := t.Params[k].Type().Underlying().(*types.Pointer); isPtr || types.IsInterface(t.Params[k].Type()) {
+							t, k := t, k
+							w.detached(func() { w.filled(t.Params[k], depth+1) })
+						}
+					}
+				}
+			}
+			continue
+		}
+		uses := false
+		for _, a := range cc.Args {
+			uses = uses || alias[a]
+		}
+		if !uses {
+			continue
+		}
+		for _, a := range cc.Args {
+			if !alias[a] {
+				w.walk(a)
+			}
+		}
 	}
 }
 
@@ -563,12 +605,62 @@ func (w *c01Flow) load(x *ssa.UnOp) {
 
 // container: a map or slice made here: what is put into it in place (m[k] = v, m[k][j] = v, s[i] = v).
 func (w *c01Flow) container(v ssa.Value) {
+	w.containerD(v, 0)
+}
+
+// c01CellLoads: the loads of the cell at addr - in its function and, when closures capture the cell, in the closures.
+func c01CellLoads(addr ssa.Value, depth int) []*ssa.UnOp {
+	var out []*ssa.UnOp
+	refs := addr.Referrers()
+	if refs == nil || depth > 3 {
+		return nil
+	}
+	for _, r := range *refs {
+		switch y := r.(type) {
+		case *ssa.UnOp:
+			if y.Op == token.MUL && y.X == addr {
+				out = append(out, y)
+			}
+		case *ssa.MakeClosure:
+			fn, ok := y.Fn.(*ssa.Function)
+			if !ok {
+				continue
+			}
+			for k, b := range y.Bindings {
+				if b == addr && k < len(fn.FreeVars) {
+					out = append(out, c01CellLoads(fn.FreeVars[k], depth+1)...)
+				}
+			}
+		}
+	}
+	return out
+}
+
+func (w *c01Flow) containerD(v ssa.Value, depth int) {
 	refs := v.Referrers()
-	if refs == nil {
+	if refs == nil || depth > 3 {
 		return
 	}
 	for _, r := range *refs {
 		switch y := r.(type) {
+		case *ssa.Store:
+			// the container is kept in a local variable that closures share (results := make(..); go func() {
+			// results[i] = .. }()): what is put into it through the other names of that variable
+			if y.Val != v {
+				continue
+			}
+			if _, isLocal := y.Addr.(*ssa.Alloc); !isLocal {
+				continue
+			}
+			for _, ld := range c01CellLoads(y.Addr, 0) {
+				if ld != v {
+					w.containerD(ld, depth+1)
+				}
+			}
+		case *ssa.Slice:
+			if y.X == v {
+				w.containerD(y, depth+1)
+			}
 		case *ssa.MapUpdate:
 			if y.Map == v {
 				w.walk(y.Key)
@@ -618,6 +710,23 @@ func c01ChanRoots(v ssa.Value) map[*ssa.MakeChan]bool {
 			}
 		case *ssa.ChangeType:
 			walk(y.X, d+1)
+		case *ssa.Call:
+			// the channel a repository helper hands back (done := start(..))
+			ts := c01Targets(&y.Call)
+			if len(ts) == 0 {
+				unknown = true
+			}
+			for _, t := range ts {
+				eachInstr(t, func(i ssa.Instruction) {
+					if r, ok := i.(*ssa.Return); ok {
+						for _, res := range r.Results {
+							if types.Identical(res.Type().Underlying(), y.Type().Underlying()) || (len(r.Results) == 1 && c01ChanLike(res.Type(), y.Type())) {
+								walk(res, d+1)
+							}
+						}
+					}
+				})
+			}
 		case *ssa.FreeVar:
 			bs := c01Bindings(y)
 			if len(bs) == 0 {
@@ -642,6 +751,18 @@ func c01ChanRoots(v ssa.Value) map[*ssa.MakeChan]bool {
 				walk(a, d+1)
 			case *ssa.FreeVar:
 				walk(a, d+1)
+			case *ssa.FieldAddr:
+				// a channel kept in a field of a struct: what the repository stores into that field of that type
+				var sts []*ssa.Store
+				if t := c01TracerOf(y.Parent()); t != nil {
+					sts = t.byField[c01FieldKey(a.X.Type(), a.Field)]
+				}
+				if len(sts) == 0 || len(sts) > 8 {
+					unknown = true
+				}
+				for _, st := range sts {
+					walk(st.Val, d+1)
+				}
 			default:
 				unknown = true
 			}
@@ -669,6 +790,13 @@ func c01ChanRoots(v ssa.Value) map[*ssa.MakeChan]bool {
 		return nil
 	}
 	return out
+}
+
+// c01ChanLike: two channel types with the same element type (chan T handed out as <-chan T).
+func c01ChanLike(a, b types.Type) bool {
+	ca, ok1 := a.Underlying().(*types.Chan)
+	cb, ok2 := b.Underlying().(*types.Chan)
+	return ok1 && ok2 && types.Identical(ca.Elem(), cb.Elem())
 }
 
 func c01SameChan(a, b ssa.Value) bool {
